@@ -178,10 +178,24 @@ def finalize(pid, cfg, tier, seed, results, wall, replay_rec=None, extra_cov=Non
     ev, checks, notes, worst, caps, recs, crashes = merge(pid, cfg, tier, results, wall)
     opens, _fixed = load_known()
     rc = 0
+    crash_viol = 0
     if crashes:
         for c in crashes[:3]:
             sys.stderr.write("HARNESS FAILURE rc=%s pass=%s\n%s\n%s\n" % (c["rc"], c["pass"], c["cmd"], c["log"]))
         rc = 2
+        # A shard killed by a signal / sanitizer while running library code in-process: the code under test corrupted
+        # memory or aborted (never happens on a tree where the property holds; harness self-check failures use exit codes 3..5).
+        fatal = [c for c in crashes if (c["rc"] is not None and c["rc"] < 0) or "Sanitizer" in c["log"] or "runtime error:" in c["log"]]
+        if fatal and replay_rec is None:
+            rdir0 = os.path.join(os.environ.get("VERIF_REPLAY_DIR") or os.path.join(VERIF, "replays"), pid)
+            os.makedirs(rdir0, exist_ok=True)
+            path = os.path.join(rdir0, "shard-crash-%s.json" % hashlib.sha256(fatal[0]["cmd"].encode()).hexdigest()[:10])
+            json.dump({"property": pid, "check": "harness.shard", "site": "fatal-signal", "params": {}, "cmd": fatal[0]["cmd"],
+                       "observed": fatal[0]["log"][-1500:], "expected": "library code returns or throws"}, open(path, "w"), indent=1)
+            print("VIOLATION property=%s replay=%s" % (pid, path))
+            print("  a harness shard was killed (rc=%s) while executing library code in-process: %s" % (fatal[0]["rc"], fatal[0]["log"][-300:].replace("\n", " | ")))
+            crash_viol = len(fatal)
+            rc = 1
 
     if replay_rec is not None:
         hit = any(j.get("replay_hit") for j in results if not j.get("crash"))
@@ -210,7 +224,7 @@ def finalize(pid, cfg, tier, seed, results, wall, replay_rec=None, extra_cov=Non
     for e, n, r in known_hits.values():
         print("KNOWN-FINDING: property=%s %s [check=%s site=%s, %d recorded case(s), first: %s]" % (
             pid, e["text"], r["check"], r["site"], n, json.dumps(r["params"], separators=(",", ":"))[:200]))
-    rdir = os.path.join(VERIF, "replays", pid)
+    rdir = os.path.join(os.environ.get("VERIF_REPLAY_DIR") or os.path.join(VERIF, "replays"), pid)
     if unknown:
         os.makedirs(rdir, exist_ok=True)
     for (chk, site), rs in sorted(unknown.items()):
@@ -222,7 +236,7 @@ def finalize(pid, cfg, tier, seed, results, wall, replay_rec=None, extra_cov=Non
         print("  check=%s site=%s cases=%d%s first: params=%s observed=%s expected=%s" % (
             chk, site, len(rs), "+" if checks.get(chk, {}).get("violations", 0) > len(rs) else "",
             json.dumps(r["params"], separators=(",", ":"))[:300], r["observed"][:300], r["expected"][:300]))
-        rc = max(rc, 1)
+        rc = 1 if rc in (0, 2) else rc
 
     # ---- evidence
     level = cfg["level"]
@@ -254,10 +268,11 @@ def finalize(pid, cfg, tier, seed, results, wall, replay_rec=None, extra_cov=Non
     evd = {
         "property_id": pid, "tier": tier, "seed": seed, "level": level, "coverage": cov,
         "assumptions": list(cfg.get("assumptions", [])) + list(extra_assumptions),
-        "wall_s": round(wall, 2), "violations": sum(len(v) for v in unknown.values()),
+        "wall_s": round(wall, 2), "violations": sum(len(v) for v in unknown.values()) + crash_viol,
     }
-    os.makedirs(os.path.join(VERIF, "evidence"), exist_ok=True)
-    json.dump(evd, open(os.path.join(VERIF, "evidence", pid + ".json"), "w"), indent=1)
+    evdir = os.environ.get("VERIF_EVIDENCE_DIR") or os.path.join(VERIF, "evidence")   # mutant runs redirect their evidence
+    os.makedirs(evdir, exist_ok=True)
+    json.dump(evd, open(os.path.join(evdir, pid + ".json"), "w"), indent=1)
     print("%s %s: evaluations=%d distinct_nontrivial=%d%s checks=%d violations=%d known=%d caps=%s wall=%.1fs" % (
         pid, tier, ev["evaluations"], ev["distinct_nontrivial"],
         (" states=%d transitions=%d" % (ev["states"], ev["transitions"])) if level == "model_checking" else "",
